@@ -194,7 +194,7 @@ where
                     format!("type mismatch: expected Array(Array::Integer), got {v:?}"),
                 ));
             }
-            None => {}
+            None => max_len = cmp::max(max_len, 1),
         }
     }
 
